@@ -1,6 +1,6 @@
 CONSTANTS
   RawDom <- Dom
-  Idiom = "bail"
+  Idiom = "bail_valu32"
   MaxIssues = 3
 SPECIFICATION Spec
 INVARIANTS TypeOK ReturnConforms LimitConforms
